@@ -1635,6 +1635,26 @@ func c8siteClass(site *c8jv, m *c8mem) string {
 	return c8kindName[site.sh.kind]
 }
 
+// c8mustAccept unmarshals (default options, entry point Unmarshal) a text that the generator built to be valid for the
+// type and duplicate-free.  The text is first checked with the harness's own scanner: a wrong text is a bug of the
+// generator (machinery failure).  A rejection or a panic by the LIBRARY is a violation of the property itself
+// ("the un-injected text is accepted") and is reported as such; the caller then abandons the case.
+func c8mustAccept(c *Ctx, cs *c8case, what string, target reflect.Value, text []byte) bool {
+	if ok, dup, bad := c8scan(text); !ok || dup || bad {
+		fail("C08 generator: %s text is not clean (ok=%v dup=%v bad=%v): %s", what, ok, dup, bad, text)
+	}
+	res := c8unmarshalInto(0, target, text, cs.opts())
+	if res.pan != nil {
+		c.Panic("Unmarshal("+what+")", text, res.pan, c8detail(cs, "text", text))
+		return false
+	}
+	if res.err != nil {
+		c.Violate("reject-clean", "Unmarshal("+what+")", text, c8detail(cs, "text", text, "err", res.err))
+		return false
+	}
+	return true
+}
+
 func c8dupCase(c *Ctx, r *rand.Rand, cs *c8case, g *c8gen, cleanDump string) {
 	inj := g.inject(cs.root)
 	if inj == nil {
@@ -1695,11 +1715,11 @@ func c8dupCase(c *Ctx, r *rand.Rand, cs *c8case, g *c8gen, cleanDump string) {
 	nrepl := 0
 	switch inj.oracle {
 	case "clean":
-		res := c8unmarshal(0, cs.sh.typ, first, cs.opts()...)
-		if res.err != nil || res.pan != nil {
-			fail("C08: oracle clean failed on %s: %v %v", first, res.err, res.pan)
+		target := reflect.New(cs.sh.typ)
+		if !c8mustAccept(c, cs, "text without the later member", target, first) {
+			return
 		}
-		want = c8dump(res.val.Elem(), nil)
+		want = c8dump(target.Elem(), nil)
 	case "rawpatch":
 		var r1, r2 []byte
 		if site.zone == 'r' {
@@ -1711,11 +1731,11 @@ func c8dupCase(c *Ctx, r *rand.Rand, cs *c8case, g *c8gen, cleanDump string) {
 		} else {
 			r1, r2 = c8fallbackText(site, inj.i2), c8fallbackText(site, -1)
 		}
-		res := c8unmarshal(0, cs.sh.typ, first, cs.opts()...)
-		if res.err != nil || res.pan != nil {
-			fail("C08: oracle rawpatch failed on %s: %v %v", first, res.err, res.pan)
+		target := reflect.New(cs.sh.typ)
+		if !c8mustAccept(c, cs, "text without the later member", target, first) {
+			return
 		}
-		want = c8dump(res.val.Elem(), nil)
+		want = c8dump(target.Elem(), nil)
 		rawfix = func(b []byte) []byte {
 			if n := bytes.Count(b, r2); n > 0 {
 				nrepl += n
@@ -1729,11 +1749,10 @@ func c8dupCase(c *Ctx, r *rand.Rand, cs *c8case, g *c8gen, cleanDump string) {
 			fail("C08 generator: path-only text wrong: %s", second)
 		}
 		target := reflect.New(cs.sh.typ)
-		res := c8unmarshalInto(0, target, first, cs.opts())
-		if res.err != nil || res.pan != nil {
-			fail("C08: oracle seq step 1 failed on %s: %v %v", first, res.err, res.pan)
+		if !c8mustAccept(c, cs, "text without the later member", target, first) {
+			return
 		}
-		res = c8unmarshalInto(0, target, second, cs.opts())
+		res := c8unmarshalInto(0, target, second, cs.opts())
 		if res.pan != nil {
 			c.Panic("Unmarshal(merge)", second, res.pan, c8detail(cs, "first", first, "second", second))
 			return
@@ -1742,15 +1761,11 @@ func c8dupCase(c *Ctx, r *rand.Rand, cs *c8case, g *c8gen, cleanDump string) {
 		want = c8dump(target.Elem(), nil)
 	case "tree":
 		merged := c8renderWithout(cs.root, site, inj.i2, inj.i1, m2)
-		res := c8unmarshal(0, cs.sh.typ, merged, cs.opts()...)
-		if res.pan != nil {
-			c.Panic("Unmarshal", merged, res.pan, c8detail(cs))
+		target := reflect.New(cs.sh.typ)
+		if !c8mustAccept(c, cs, "text with the later member in place of the earlier", target, merged) {
 			return
 		}
-		if res.err != nil {
-			fail("C08: oracle tree failed on %s: %v", merged, res.err)
-		}
-		want = c8dump(res.val.Elem(), nil)
+		want = c8dump(target.Elem(), nil)
 	}
 	if wantErr {
 		c.Hit("allow-dup:merge-error-expected")
@@ -2419,7 +2434,11 @@ func c8poisonDecode(c *Ctx, r *rand.Rand, shapes []*c8shape) {
 		return
 	}
 	// continue with direct Decoder calls: the object holding the duplicate must never be completed silently
-	for step := 0; step < 400; step++ {
+	for step := 0; ; step++ {
+		if step > len(text)+10 { // every successful read consumes at least one byte of a finite text
+			c.Violate("poisoned-decoder-no-progress", "Decoder after failed UnmarshalDecode", text, c8detail(cs, "text", text, "firstErr", err))
+			return
+		}
 		var derr error
 		var kind jsontext.Kind
 		if p := guard(func() {
@@ -2455,7 +2474,6 @@ func c8poisonDecode(c *Ctx, r *rand.Rand, shapes []*c8shape) {
 			return
 		}
 	}
-	fail("C08: drain did not terminate on %s", text)
 }
 
 func c8poisonEncode(c *Ctx, r *rand.Rand) {
@@ -2551,20 +2569,25 @@ func c8corrUintSet(c *Ctx, or *Oracle, r *rand.Rand, n int) {
 		nops := 1 + r.IntN(40)
 		max := []uint{8, 64, 65, 128, 129, 192, 200, 260, 1000}[r.IntN(9)]
 		pivots := []uint{0, 1, 62, 63, 64, 65, 126, 127, 128, 129, 190, 191, 192, 193, 255, 256}
-		for i := 0; i < nops; i++ {
-			var x uint
-			if r.IntN(3) == 0 {
-				x = pivots[r.IntN(len(pivots))]
-			} else {
-				x = uint(r.UintN(max + 1))
+		if p := guard(func() {
+			for i := 0; i < nops; i++ {
+				var x uint
+				if r.IntN(3) == 0 {
+					x = pivots[r.IntN(len(pivots))]
+				} else {
+					x = uint(r.UintN(max + 1))
+				}
+				if r.IntN(4) == 0 {
+					fmt.Fprintf(&sb, " h%d", x)
+					wb.WriteString(b2s(s.Has(x)))
+				} else {
+					fmt.Fprintf(&sb, " %d", x)
+					wb.WriteString(b2s(s.Insert(x)))
+				}
 			}
-			if r.IntN(4) == 0 {
-				fmt.Fprintf(&sb, " h%d", x)
-				wb.WriteString(b2s(s.Has(x)))
-			} else {
-				fmt.Fprintf(&sb, " %d", x)
-				wb.WriteString(b2s(s.Insert(x)))
-			}
+		}); p != nil {
+			c.Panic("VerifUintSet", []byte(sb.String()), p, map[string]any{"line": trunc(sb.String(), 600)})
+			continue
 		}
 		lines = append(lines, sb.String())
 		wants = append(wants, wb.String())
@@ -2594,52 +2617,92 @@ func c8corrNamespace(c *Ctx, or *Oracle, r *rand.Rand, n int) {
 		var ns jsontext.VerifNamespace
 		var sb, wb strings.Builder
 		sb.WriteString("dup ns")
-		// profiles: few short names; ~64 names (count threshold); ~10 names of ~100 bytes (byte threshold); mixed
+		// profiles: few short names; ~64 names (count threshold); ~10 names of ~100 bytes (byte threshold, FEW names);
+		// mixed.  One sequence drives 1..4 objects through the SAME namespace with Reset in between, as
+		// objectNamespaceStack.push does for sibling objects and the coders do between top-level values; the later
+		// objects draw from the same name pool, so a map that survived Reset shows up as a wrong mode and as a
+		// spurious "already present".
 		profile := r.IntN(4)
-		nops, nameLen, pool := 1+r.IntN(20), 2, 6
+		nameLen, pool := 2, 6
 		rmOneIn := 8
 		switch profile {
-		case 1: // around the 64-name switch: the 66th successful insert attempt flips the mode
-			nops, nameLen, pool, rmOneIn = 63+r.IntN(12), 2, 5000, 60
-		case 2: // around the 1024-byte switch
-			nops, nameLen, pool, rmOneIn = 8+r.IntN(8), 90+r.IntN(30), 40, 20
+		case 1:
+			nameLen, pool, rmOneIn = 2, 5000, 60
+		case 2:
+			nameLen, pool, rmOneIn = 90+r.IntN(30), 16+r.IntN(24), 20
 		case 3:
-			nops, nameLen, pool = 70+r.IntN(60), 1+r.IntN(20), 60+r.IntN(300)
+			nameLen, pool = 1+r.IntN(20), 60+r.IntN(300)
 		}
-		sawMap := false
-		for i := 0; i < nops; i++ {
-			if ns.Length() > 0 && r.IntN(rmOneIn) == 0 {
-				ns.RemoveLast()
-				sb.WriteString(" rm")
-				wb.WriteString("-")
-			} else {
-				id := r.IntN(pool)
-				name := []byte(strconv.Itoa(id))
-				if r.IntN(30) == 0 {
-					name = nil // the empty name
-				} else {
-					for len(name) < nameLen {
-						name = append(name, byte('a'+id%26))
+		objects := 1 + r.IntN(4)
+		sawMap, sawMapThenReset := false, false
+		if p := guard(func() {
+			for o := 0; o < objects; o++ {
+				if o > 0 {
+					if ns.UsesMap() {
+						sawMapThenReset = true
+					}
+					ns.Reset()
+					sb.WriteString(" reset")
+					wb.WriteString("-")
+					if ns.UsesMap() {
+						wb.WriteString("M")
+					} else {
+						wb.WriteString("L")
 					}
 				}
-				sb.WriteString(" " + hx(name))
-				wb.WriteString(b2s(ns.InsertUnquoted(name)))
+				nops := 1 + r.IntN(20)
+				switch profile {
+				case 1: // around the 64-name switch: the 66th insert attempt flips the mode
+					nops = 63 + r.IntN(12)
+				case 2: // around the 1024-byte switch
+					nops = 11 + r.IntN(8)
+				case 3:
+					nops = 70 + r.IntN(60)
+				}
+				if o > 0 && r.IntN(2) == 0 {
+					nops = 1 + r.IntN(6) // a small sibling after a large one
+				}
+				for i := 0; i < nops; i++ {
+					if ns.Length() > 0 && r.IntN(rmOneIn) == 0 {
+						ns.RemoveLast()
+						sb.WriteString(" rm")
+						wb.WriteString("-")
+					} else {
+						id := r.IntN(pool)
+						name := []byte(strconv.Itoa(id))
+						if r.IntN(30) == 0 {
+							name = nil // the empty name
+						} else {
+							for len(name) < nameLen {
+								name = append(name, byte('a'+id%26))
+							}
+						}
+						sb.WriteString(" " + hx(name))
+						wb.WriteString(b2s(ns.InsertUnquoted(name)))
+					}
+					if ns.UsesMap() {
+						wb.WriteString("M")
+						sawMap = true
+					} else {
+						wb.WriteString("L")
+					}
+				}
 			}
-			if ns.UsesMap() {
-				wb.WriteString("M")
-				sawMap = true
-			} else {
-				wb.WriteString("L")
+			fmt.Fprintf(&wb, " %d", ns.Length())
+			for i := 0; i < ns.Length(); i++ {
+				wb.WriteString(" " + hx(ns.GetUnquoted(i)))
 			}
-		}
-		fmt.Fprintf(&wb, " %d", ns.Length())
-		for i := 0; i < ns.Length(); i++ {
-			wb.WriteString(" " + hx(ns.GetUnquoted(i)))
+		}); p != nil {
+			c.Panic("VerifNamespace", []byte(sb.String()), p, map[string]any{"line": trunc(sb.String(), 800)})
+			continue
 		}
 		if sawMap {
 			c.Hit("corr:namespace-switched-to-map")
 		} else {
 			c.Hit("corr:namespace-stayed-linear")
+		}
+		if sawMapThenReset {
+			c.Hit(fmt.Sprintf("corr:namespace-reset-after-map(profile %d)", profile))
 		}
 		lines = append(lines, sb.String())
 		wants = append(wants, wb.String())
@@ -2662,10 +2725,13 @@ func c8shapePool(c *Ctx, r *rand.Rand, n int) []*c8shape {
 			c.Panic("Unmarshal(null)", []byte(sh.typ.String()), res.pan, nil)
 			return
 		}
-		res2 := c8unmarshal(0, sh.typ, []byte("{}"))
-		if sh.kind == c8Struct && res2.err != nil {
-			c.Hit("shape-rejected-by-library")
-			return
+		if res.err != nil {
+			c.Violate("reject-clean", "Unmarshal(null)", []byte(sh.typ.String()), map[string]any{"type": trunc(sh.typ.String(), 1500), "text": "null", "err": res.err.Error()})
+		}
+		// the generated tags use only letters, digits, '_' and '-' (never rejected on the unchanged tree):
+		// a struct type that does not accept `{}` is the library's doing, not a reason to drop the shape
+		if res2 := c8unmarshal(0, sh.typ, []byte("{}")); sh.kind == c8Struct && (res2.err != nil || res2.pan != nil) {
+			c.Violate("reject-clean", "Unmarshal({})", []byte(sh.typ.String()), map[string]any{"type": trunc(sh.typ.String(), 1500), "text": "{}", "err": fmt.Sprint(res2.err), "panic": fmt.Sprint(res2.pan)})
 		}
 		shapes = append(shapes, sh)
 		c.Hit("shape:" + c8kindName[sh.kind])
@@ -2676,7 +2742,7 @@ func c8shapePool(c *Ctx, r *rand.Rand, n int) []*c8shape {
 		}
 	}
 	if len(shapes) != c8numBigShapes {
-		fail("C08: %d of %d many-field struct shapes were accepted by the library", len(shapes), c8numBigShapes)
+		fail("C08 generator: %d many-field struct shapes, want %d", len(shapes), c8numBigShapes)
 	}
 	for len(shapes) < n {
 		sh := c8genShape(r, 0, 0)
@@ -2712,7 +2778,11 @@ func runC08(c *Ctx) {
 				}()
 				r := rand.New(rand.NewPCG(c.Seed, uint64(len(name))<<32+uint64(w)+77))
 				for i := w; i < n && c8workerFail.Load() == nil; i += workers {
-					f(r)
+					// a panic of the harness's own code while it digests what the library returned is reported
+					// and the run continues; only fail() (a machineryFailure) stops it
+					if p := guard(func() { f(r) }); p != nil {
+						c.Panic("harness worker: "+name, nil, p, nil)
+					}
 				}
 			}(w)
 		}
